@@ -44,6 +44,7 @@ struct Cn { unsigned id; ConnRef *c; bool hs, hd; Point s, d; };
 struct World {
     Router *router = nullptr;
     bool orth = false; double pen = 0; bool txn = true;
+    double buf = 0;                 // shapeBufferDistance
     std::vector<Ob> obs;            // alive C++ objects (incl. queued-for-delete)
     std::vector<Cn> cns;
     std::vector<Rc> graveyard;      // rectangles of deleted shapes (for re-adding at the same place)
@@ -68,16 +69,16 @@ bool placeable(const World &w, const Rc &r, unsigned self) {
     if (r.x0 < LO - 60 || r.y0 < LO - 60 || r.x1 > HI + 60 || r.y1 > HI + 60) return false;
     for (const Ob &o : w.obs) {
         if (o.id == self || o.pendingDel) continue;
-        if (!sep(r, o.r, 1)) return false;
+        if (!sep(r, o.r, 1 + 2 * w.buf)) return false;        // routing polygons stay disjoint too
     }
     for (const Cn &c : w.cns) {
-        if (c.hs && !ptClear(c.s, r, 1)) return false;
-        if (c.hd && !ptClear(c.d, r, 1)) return false;
+        if (c.hs && !ptClear(c.s, r, 1 + w.buf)) return false;    // random placement keeps endpoints out of
+        if (c.hd && !ptClear(c.d, r, 1 + w.buf)) return false;    // buffer zones (only class buffer-endpoint puts them there)
     }
     return true;
 }
 bool pointFree(const World &w, const Point &p) {
-    for (const Ob &o : w.obs) { if (o.pendingDel) continue; if (!ptClear(p, o.r, 1)) return false; }
+    for (const Ob &o : w.obs) { if (o.pendingDel) continue; if (!ptClear(p, o.r, 1 + w.buf)) return false; }
     return true;
 }
 
@@ -116,9 +117,10 @@ void observe(World &w) {
     printf("oe\n");
 }
 
-Router *mkRouter(bool orth, double pen) {
+Router *mkRouter(bool orth, double pen, double buf) {
     Router *r = new Router(orth ? OrthogonalRouting : PolyLineRouting);
     r->setRoutingParameter(segmentPenalty, pen);
+    if (buf > 0) r->setRoutingParameter(shapeBufferDistance, buf);
     return r;
 }
 
@@ -154,7 +156,7 @@ void txnPoint(World &w, vh::Rng &rng, bool forceDump) {
     printf("ff %d\n", (int) all);
     fflush(stdout);
     if (all) {
-        Router *f = mkRouter(w.orth, w.pen);
+        Router *f = mkRouter(w.orth, w.pen, w.buf);
         std::vector<Ob> so = w.obs;
         std::sort(so.begin(), so.end(), [](const Ob &a, const Ob &b) { return a.id < b.id; });
         for (const Ob &o : so) {
@@ -507,6 +509,46 @@ void scenarioOneSide(World &w, vh::Rng &rng) {
     if (w.txn) opProcess(w, rng, true);
 }
 
+// shapeBufferDistance > 0, a free endpoint OUTSIDE shape S but inside its buffer zone (so inside S's
+// routing polygon: Router::contains records S for that endpoint). S is then moved so that it lies
+// between the two endpoints, and in a LATER transaction a visibility edge from that endpoint is computed
+// afresh: (A) a new shape U is added whose buffered corner lies behind S as seen from the endpoint, or
+// (B) a third shape T that was the recorded blocker of the straight line is moved away / deleted.
+// A stale `contains` entry would then let the edge ignore S.
+void scenarioBuffer(World &w, vh::Rng &rng) {
+    double b = w.buf, d = rng.range(2, (long) b - 1);
+    Xf t{rng.coin() ? 1 : -1, rng.coin() ? 1 : -1, rng.coin(), (double) rng.range(50, 70), (double) rng.range(50, 70), 1};
+    double M = 20 + d + b + rng.range(2, 6), x0 = M + 20 + 2 * b + rng.range(2, 6), dstx = x0 + 10 + b + rng.range(5, 15);
+    bool varA = rng.coin();
+    opAddShape(w, rng, xfr(t, 0, 0, 20, 20)); unsigned s = w.obs.back().id;
+    unsigned tt = 0;
+    if (!varA) { opAddShape(w, rng, xfr(t, x0, 0, x0 + 10, 20)); tt = w.obs.back().id; }
+    opNewConn(w, rng, xfp(t, 20 + d, 10), xfp(t, dstx, 10), rng.coin());
+    if (w.txn) opProcess(w, rng);
+    Point m1 = xfp(t, M, 0), o0 = xfp(t, 0, 0);
+    if (rng.coin()) opMoveRel(w, rng, s, m1.x - o0.x, m1.y - o0.y); else opMoveAbs(w, rng, s, xfr(t, M, 0, M + 20, 20), false);
+    if (w.txn) opProcess(w, rng);
+    if (varA) opAddShape(w, rng, xfr(t, x0, 11, x0 + 10, 35));
+    else {
+        Point far = xfp(t, 0, 100);
+        int how = (int) rng.range(0, 2);
+        if (how == 0) opDelete(w, rng, tt);
+        else if (how == 1) opMoveRel(w, rng, tt, far.x - o0.x, far.y - o0.y);
+        else opMoveAbs(w, rng, tt, xfr(t, x0, 100, x0 + 10, 120), false);
+    }
+    if (w.txn) opProcess(w, rng, true);
+}
+
+// clean-tree behaviour being fingerprinted: the endpoint is in S's buffer zone and the other endpoint
+// is BEHIND S; libavoid exempts S as a blocker for that endpoint, so the route runs through S itself
+void scenarioBufferBehind(World &w, vh::Rng &rng) {
+    double b = w.buf, d = rng.range(2, (long) b - 1);
+    Xf t{rng.coin() ? 1 : -1, rng.coin() ? 1 : -1, rng.coin(), (double) rng.range(50, 70), (double) rng.range(50, 70), 1};
+    opAddShape(w, rng, xfr(t, 0, 0, 20, 20));
+    opNewConn(w, rng, xfp(t, 20 + d, 10), xfp(t, -(double) rng.range(15, 40), rng.range(4, 16)), rng.coin());
+    if (w.txn) opProcess(w, rng, true);
+}
+
 // route bends around S; S is deleted / moved away / moved and moved back / deleted and re-added
 void scenarioTouched(World &w, vh::Rng &rng, int variant) {
     Xf t{rng.coin() ? 1 : -1, rng.coin() ? 1 : -1, rng.coin(), (double) rng.range(40, 80), (double) rng.range(40, 80), (double) rng.range(1, 4)};
@@ -579,7 +621,7 @@ void scenarioOffPending(World &w, vh::Rng &rng) {
 static void runCase(const vh::Args &a, long k) {
     static const char *tags[] = {"unblock-untouched", "unblock-touched", "block", "txn-off-pending",
                                  "rand-poly", "rand-orth", "rand-poly-off", "rand-orth-off", "block-diagonal",
-                                 "unblock-one-side"};
+                                 "unblock-one-side", "buffer-endpoint", "buffer-endpoint-behind"};
     {
         vh::Rng rng = vh::caseRng(a.seed, k);
         int cls;
@@ -588,15 +630,19 @@ static void runCase(const vh::Args &a, long k) {
         else if (c < 13) cls = 4; else if (c < 16) cls = 5; else if (c < 18) cls = 6; else cls = 7;
         if (k % 40 == 7) cls = 8;
         if (k % 20 == 1) cls = 9;
+        if (k % 20 == 3) cls = 10;
+        if (k % 40 == 23) cls = 11;
         World w;
-        w.orth = (cls == 5 || cls == 7) || (cls >= 1 && cls <= 3 && rng.coin(1, 3));   // cls 0, 8 and 9 are polyline-only
+        w.orth = (cls == 5 || cls == 7) || (cls >= 1 && cls <= 3 && rng.coin(1, 3));   // cls 0, 8, 9, 10, 11 are polyline-only
         static const double polyPen[] = {0, 0, 10, 50}, orthPen[] = {10, 10, 50};
         w.pen = w.orth ? orthPen[rng.range(0, 2)] : polyPen[rng.range(0, 3)];
         w.txn = !(cls == 6 || cls == 7) && !((cls <= 2 || cls >= 8) && rng.coin(1, 3));
         vh::beginCase(k, tags[cls]);
-        printf("cfg %s %s %d\n", w.orth ? "orth" : "poly", vh::hx(w.pen).c_str(), (int) w.txn);
+        if (cls == 10 || cls == 11) w.buf = rng.coin() ? 4 : 8;
+        else if ((cls == 4 || cls == 6) && rng.coin(1, 4)) w.buf = 4;
+        printf("cfg %s %s %d %s\n", w.orth ? "orth" : "poly", vh::hx(w.pen).c_str(), (int) w.txn, vh::hx(w.buf).c_str());
         fflush(stdout);
-        w.router = mkRouter(w.orth, w.pen);
+        w.router = mkRouter(w.orth, w.pen, w.buf);
         if (!w.txn) { opSetTxn(w, rng, false); }
         int maxShapes = (int) rng.range(2, 10);
         // background: a few random rectangles and connectors
@@ -606,6 +652,8 @@ static void runCase(const vh::Args &a, long k) {
         else if (cls == 1) scenarioTouched(w, rng, (int) rng.range(0, 5));
         else if (cls == 8) scenarioDiagonal(w, rng);
         else if (cls == 9) scenarioOneSide(w, rng);
+        else if (cls == 10) scenarioBuffer(w, rng);
+        else if (cls == 11) scenarioBufferBehind(w, rng);
         for (int i = 0; i < nbg; ++i) { Rc r; if (randRect(w, rng, r, 0)) opAddShape(w, rng, r); }
         if (!directed && rng.coin(1, 2))
             for (int t = 0; t < 30; ++t) {
